@@ -25,7 +25,9 @@ func runC18(c *Ctx) {
 	c.Rule("C18.O3", "E4", "go p.start() preceded by Add(1); start defers Done first and the descriptor closes before the IO loop; newPoller closes opened descriptors on error exits; nbhttp.listen pairs Add/deferred Done", 4)
 	c.Rule("C18.O4", "E5", "nbhttp.Stop: shutdown flag, listeners, then core Stop; stopListeners stops the mux in mixed mode; the stop hook stops both pools and replaces the executors; Shutdown closes tracked connections before delegating", 4)
 	c.Rule("C18.O5", "E4", "lmux.Stop closes each underlying listener and the close channel; ChanListener.Accept selects on the close channel", 2)
+	c.Rule("C18.O7", "E4", "the blocking readers' deferred clean-up removes the connection from the tracked set (delete(engine.conns, key) under Engine.mux), reports the close and releases the load slot on every path: Shutdown waits for the set to drain", 2)
 	c.Rule("C18.O6", "E5", "connection WaitGroup pairing (same rule as C03.O3)", 2)
+	c18ReaderCleanup(c)
 
 	L := c.Locks()
 
@@ -522,4 +524,67 @@ func c18Resources(c *Ctx, np *ssa.Function) {
 		}
 	}
 	c.Cond(bad == "", "C18.O3", fnKey(c.P, np, "descriptor cleanup"), c.FnPos(np), "epoll and event descriptors closed on every later error exit", bad)
+}
+
+// c18ReaderCleanup: O7.
+func c18ReaderCleanup(c *Ctx) {
+	for _, name := range []string{"(*nbhttp.Engine).readConnBlocking", "(*nbhttp.Engine).readTLSConnBlocking"} {
+		fn := c.Fn("C18.O7", name)
+		if fn == nil {
+			continue
+		}
+		key := fnKey(c.P, fn, "clean-up untracks on every path")
+		var cl *ssa.Function
+		for _, b := range fn.Blocks {
+			for _, in := range b.Instrs {
+				if d, ok := in.(*ssa.Defer); ok {
+					if callee := ir.StaticCallee(&d.Call); callee != nil && callee.Parent() == fn {
+						for _, cs := range c.P.CallsNamed(callee, "builtin:delete") {
+							if c.P.LoadedField(ir.Resolve(cs.Common.Args[0])) == "nbhttp.Engine.conns" {
+								cl = callee
+							}
+						}
+					}
+				}
+			}
+		}
+		if cl == nil {
+			c.Bad("C18.O7", key, c.FnPos(fn), "the reader defers no clean-up that removes the connection from engine.conns: Shutdown would wait for it forever")
+			continue
+		}
+		fi := c.P.Info(cl)
+		first := cl.Blocks[0].Instrs[0]
+		through := map[string]func(in ssa.Instruction) bool{
+			"Engine.mux.Lock (the untracking region)": func(in ssa.Instruction) bool {
+				cs, ok := ir.AsCall(in)
+				return ok && c.P.CalleeName(cs.Common) == "(*sync.Mutex).Lock" && strings.Contains(c.P.Desc(cs.Common.Args[0]), "nbhttp.Engine.mux")
+			},
+			"engine._onClose": func(in ssa.Instruction) bool {
+				cs, ok := ir.AsCall(in)
+				return ok && strings.Contains(c.P.CalleeName(cs.Common), "nbhttp.Engine._onClose")
+			},
+			"the load-slot release passed by the caller (decrease)": func(in ssa.Instruction) bool {
+				return dynCallThrough(in, func(v ssa.Value) bool {
+					return strings.HasPrefix(c.P.Desc(v), "param#") && v.Type().String() == "func()"
+				})
+			},
+		}
+		bad := ""
+		for what, pred := range through {
+			if pred(first) {
+				continue
+			}
+			if esc := fi.EscapesWithout([]ssa.Instruction{first}, pred); len(esc) > 0 {
+				bad = "the clean-up can return at " + c.Pos(esc[0]) + " without " + what + ": the connection stays in the tracked set / load count, and Shutdown never sees it drain"
+			}
+		}
+		// the delete sits inside the mutex region
+		L := c.Locks()
+		for _, cs := range c.P.CallsNamed(cl, "builtin:delete") {
+			if c.P.LoadedField(ir.Resolve(cs.Common.Args[0])) == "nbhttp.Engine.conns" && !L.HeldClass(cs.In, "nbhttp.Engine.mux") {
+				bad = "engine.conns is modified at " + c.Pos(cs.In) + " without Engine.mux"
+			}
+		}
+		c.Cond(bad == "", "C18.O7", key, c.FnPos(cl), "untrack under Engine.mux, _onClose and decrease on every path", bad)
+	}
 }
